@@ -64,7 +64,7 @@ def _system(draw, big):
     mols = []
     total_ground = 1
     for i in range(n):
-        nm = draw(st.integers(0, 2))
+        nm = draw(st.sampled_from([0, 1, 1, 2, 2, 3]))
         modes = []
         for _ in range(nm):
             modes.append({"w": draw(st.integers(100, 1500)), "hr20": draw(st.integers(0, 40) | st.sampled_from([0, 10, 20])),
@@ -81,6 +81,8 @@ def _system(draw, big):
     case = {"kind": "system", "mols": mols, "J": J, "mult": draw(st.sampled_from([1, 1, 2]))}
     # mult = 2 may be built with the couplings between bands that differ by two excitations (fem_full)
     case["fem_full"] = case["mult"] == 2 and n >= 2 and draw(st.booleans())
+    # the aggregate is diagonalised before its (site-basis) operators are read
+    case["diagonalize_first"] = draw(st.sampled_from([False, False, True]))
     allm = [md for m in mols for md in m["modes"]]
     if allm and draw(st.sampled_from([False, False, True])):
         # strongly displaced mode with many levels in the excited state (one level in the ground state keeps the
@@ -225,6 +227,38 @@ def _system_check(case, ctx):
                 with qr.energy_units("int"):
                     hd = numpy.array(hm.data)
                 ctx.close("molecule/hermitian", hd, hd.conj().T, rtol=1e-12, scale=3.0)
+                # independent modes: the spectrum of a molecule with several modes is the Kronecker sum of the spectra
+                # of the same molecule with one mode at a time (electronic blocks are not coupled)
+                if len(m["modes"]) >= 2:
+                    def single(k):
+                        with qr.energy_units("1/cm"):
+                            one = qr.Molecule([0.0, float(m["E"])])
+                            md = m["modes"][k]
+                            mo = qr.Mode(float(md["w"]))
+                            one.add_Mode(mo)
+                            mo.set_nmax(0, md["n0"]); mo.set_nmax(1, md["n1"])
+                            hr = _hr(md)
+                            if md["neg"]:
+                                mo.set_shift(1, -math.sqrt(2.0 * hr))
+                            else:
+                                mo.set_HR(1, hr)
+                        with qr.energy_units("int"):
+                            return numpy.array(one.get_Hamiltonian().data)
+                    ok2, parts = guarded(ctx, "molecule/hamiltonian", lambda: [single(k) for k in range(len(m["modes"]))])
+                    if ok2:
+                        want_levels = []
+                        off = 0
+                        Eel = [0.0, m["E"] * orc.CM2INT]
+                        for el in (0, 1):
+                            sums = numpy.array([0.0])
+                            for k, md in enumerate(m["modes"]):
+                                n0k = md["n0"]
+                                blk = parts[k][:n0k, :n0k] if el == 0 else parts[k][n0k:, n0k:]
+                                evk = numpy.linalg.eigvalsh(blk) - Eel[el]
+                                sums = (sums[:, None] + evk[None, :]).ravel()
+                            want_levels.extend(list(sums + Eel[el]))
+                        ctx.close("molecule/spectrum-is-kronecker-sum", numpy.linalg.eigvalsh(hd), numpy.sort(want_levels),
+                                  rtol=1e-9, scale=max(1.0, m["E"] * orc.CM2INT), modes=len(m["modes"]))
 
     # ---- aggregate -------------------------------------------------------------------
     def build():
@@ -261,6 +295,11 @@ def _system_check(case, ctx):
         ctx.label("rebuilt-after-HR-change")
     if case.get("fem_full"):
         ctx.label("fem_full")
+    if case.get("diagonalize_first"):
+        ok, _ = guarded(ctx, "aggregate/diagonalize", lambda: agg.diagonalize())
+        if not ok:
+            return
+        ctx.label("diagonalized-before-read")
     with qr.energy_units("int"):
         H = numpy.array(agg.get_Hamiltonian().data, dtype=float)
     D = numpy.array(agg.get_TransitionDipoleMoment().data, dtype=float)
